@@ -38,13 +38,13 @@ Lemma converge_inv : forall c d s,
   /\ (forall o, r_out (step c s d) = Fin o -> r_cs (step c s d) = None).
 Proof.
   intros c d s Hc (g & Hpv & Hw) Ht.
-  pose proof (S_converge c reply_ok Tr Tr2 Tr1 TrG g (outside c d) d Hc
+  pose proof (S_converge c reply_ok (fun _ => True) True Tr Tr2 Tr1 TrG g (outside c d) d Hc
                 (fun _ _ H => H)
                 (fun _ _ _ => forall_true _)
-                (fun _ _ _ => I) (fun _ _ _ _ => I) (cfg_self c Hc)
+                (fun _ _ _ => I) (fun _ _ _ _ => I) (cfg_self c Hc) (fun _ _ => I)
                 (fun _ _ _ _ _ _ _ _ _ _ => I)
                 eq_refl Hpv (W_true c g Hw)) as HS.
-  destruct (HS s Ht) as (A & B & C).
+  destruct (HS s (forall_true s) Ht) as (A & B & C).
   split; [|split; [|split]].
   - eapply Forall_impl; [|exact A]. cbn. intros e He.
     split; [eapply Inv_TaskInv; exact He|apply He].
@@ -69,13 +69,13 @@ Lemma failed_state : forall c d s o,
                      /\ pv c (r_db (step c s d)) = render c p).
 Proof.
   intros c d s o Hc (g & Hpv & Hw) Ht Ho Hne.
-  pose proof (S_converge c reply_ok_nda Tr Tr2 Tr1 TrG g (outside c d) d Hc
+  pose proof (S_converge c reply_ok_nda (fun _ => True) True Tr Tr2 Tr1 TrG g (outside c d) d Hc
                 (fun _ _ H => proj1 H)
                 (fun _ _ _ => forall_true _)
-                (fun _ _ _ => I) (fun _ _ _ _ => I) (cfg_self c Hc)
+                (fun _ _ _ => I) (fun _ _ _ _ => I) (cfg_self c Hc) (fun _ _ => I)
                 (fun _ _ _ _ _ _ _ _ _ _ => I)
                 eq_refl Hpv (W_true c g Hw)) as HS.
-  destruct (HS s Ht) as (_ & B & C).
+  destruct (HS s (forall_true s) Ht) as (_ & B & C).
   destruct (C o Ho) as (_ & _ & Hidle & _).
   assert (Hnda : NDA reply_ok_nda) by (intros i r [_ H]; exact H).
   destruct (Hidle Hnda Hne) as (p & Hu & _ & Hp).
@@ -96,13 +96,13 @@ Lemma converged_state : forall c d s,
                  /\ bs <> [] /\ N.of_nat (length bs) <= t_batch c.
 Proof.
   intros c d s Hc (g & Hpv & Hw) Ht Ho.
-  pose proof (S_converge c reply_ok Tr Tr2 Tr1 TrG g (outside c d) d Hc
+  pose proof (S_converge c reply_ok (fun _ => True) True Tr Tr2 Tr1 TrG g (outside c d) d Hc
                 (fun _ _ H => H)
                 (fun _ _ _ => forall_true _)
-                (fun _ _ _ => I) (fun _ _ _ _ => I) (cfg_self c Hc)
+                (fun _ _ _ => I) (fun _ _ _ _ => I) (cfg_self c Hc) (fun _ _ => I)
                 (fun _ _ _ _ _ _ _ _ _ _ => I)
                 eq_refl Hpv (W_true c g Hw)) as HS.
-  destruct (HS s Ht) as (_ & _ & C).
+  destruct (HS s (forall_true s) Ht) as (_ & _ & C).
   destruct (C _ Ho) as (_ & Hadv & _).
   destruct (Hadv eq_refl) as (p & bs & Hu & (Hne & Hlen & _ & _) & [Hwf _] & Hp).
   destruct (unw_prefix _ _ _ Hu) as (q & ->).
